@@ -136,7 +136,7 @@ for key,(what,needs) in sorted(DESC.items()):
     srck = int(k) - koff
     if srck < 1:
         continue
-    log = f"/tmp/seedres-{P}-{srck}.log"
+    log = os.environ.get("SEEDLOGDIR", "/tmp") + f"/seedres-{P}-{srck}.log"
     src = f"{root}/{P}/out/change{srck}"
     if not os.path.exists(log) or not os.path.isdir(src):
         continue
@@ -147,7 +147,7 @@ for key,(what,needs) in sorted(DESC.items()):
     clauses = sorted(set(re.findall(r"clause=([^ ]+(?: [^s][^ ]*)*?) sig=", txt)))
     dst = f"/verif/seeded/{key}"
     os.makedirs(dst, exist_ok=True)
-    applied = f"/tmp/seed-{P}-{srck}.applied.diff"
+    applied = os.environ.get("SEEDAPPLIED", "/tmp") + f"/seed-{P}-{srck}.applied.diff"
     shutil.copy(applied if os.path.exists(applied) else src+"/patch.diff", dst+"/patch.diff")
     for f in glob.glob(src+"/*_test.go")+glob.glob(src+"/NOTES.md"):
         shutil.copy(f, dst+"/"+os.path.basename(f).replace("_test.go","_test.go.txt"))
